@@ -64,7 +64,14 @@ def generate(chk, name, maxsegs, fulllead):
     if not trees:
         raise core.Machinery('generation did not print the tree')
     tree = json.loads(trees[0][1])
-    cases = [json.loads(r[1]) for r in tlc.printed(res, 'CASE')]
+    cases = []
+    pre = '<<"CASE", '
+    for ln in res.prints:
+        if ln.startswith(pre):
+            try:  # the printed TLA+ string literal is also a JSON string literal (fast path)
+                cases.append(json.loads(json.loads(ln[len(pre) : -2])))
+            except ValueError:
+                cases.append(json.loads(tlc.tla_value(ln)[1]))
     if len(cases) != res.distinct:
         raise core.Machinery(f'{len(cases)} cases printed for {res.distinct} model states')
     return tree, cases
